@@ -57,3 +57,11 @@ Theorem C05_component_end_to_end : forall o g g' x, component_input g -> options
   layout_component o g = Ok (g', x) -> E3_statement g g'.
 Proof. exact G3_endpoints. Qed.
 Print Assumptions C05_component_end_to_end.
+
+(* ---------- every positioner, Brandes-Koepf and the NetworkSimplex positioner included (Model/PipelineBK.v) ---------- *)
+From Autog Require Import PipelineBK BKPipeline BKPipeline2.
+
+Theorem C05_component_end_to_end_any_positioner : forall bk o g g' x, component_input g -> modelled_p5 (o_p5 o) ->
+  layout_component_x bk o g = Ok (g', x) -> E3_statement g g'.
+Proof. exact Gx3_endpoints_any. Qed.
+Print Assumptions C05_component_end_to_end_any_positioner.
